@@ -373,9 +373,22 @@ func getPodGroupID(pod *v1.Pod) common_info.PodGroupID {
 func getPodResourceRequest(pod *v1.Pod) *resource_info.ResourceRequirements {
 	result := getPodResourceWithoutInitContainers(pod)
 
-	// take max_resource(sum_pod, any_init_container)
-	for _, container := range pod.Spec.InitContainers {
-		err := result.SetMaxResource(resource_info.RequirementsFromResourceList(container.Resources.Requests))
+	// take max_resource(sum_pod, any_init_container); an init container runs next to the
+	// restartable init containers (sidecars) that were started before it
+	startedSidecars := v1.ResourceList{}
+	for i := range pod.Spec.InitContainers {
+		container := &pod.Spec.InitContainers[i]
+		if isRestartableInitContainer(container) {
+			addResourceList(startedSidecars, container.Resources.Requests)
+			continue
+		}
+
+		initRequests := container.Resources.Requests
+		if len(startedSidecars) > 0 {
+			initRequests = startedSidecars.DeepCopy()
+			addResourceList(initRequests, container.Resources.Requests)
+		}
+		err := result.SetMaxResource(resource_info.RequirementsFromResourceList(initRequests))
 		if err != nil {
 			log.InfraLogger.Errorf("Failed to calculate pod required resources for pod %s/%s. Error: %s",
 				pod.Namespace, pod.Name, err.Error())
@@ -393,18 +406,32 @@ func getPodResourceRequest(pod *v1.Pod) *resource_info.ResourceRequirements {
 }
 
 // getPodResourceWithoutInitContainers returns Pod's resource request, it does not contain
-// init containers' resource request.
+// init containers' resource request, except for the restartable ones (sidecars), which keep
+// running next to the regular containers.
 func getPodResourceWithoutInitContainers(pod *v1.Pod) *resource_info.ResourceRequirements {
 	podResourcesList := v1.ResourceList{}
 	for _, container := range pod.Spec.Containers {
-		for key := range container.Resources.Requests {
-			resourceSum := podResourcesList[key]
-			resourceSum.Add(container.Resources.Requests[key])
-			podResourcesList[key] = resourceSum
+		addResourceList(podResourcesList, container.Resources.Requests)
+	}
+	for i := range pod.Spec.InitContainers {
+		if isRestartableInitContainer(&pod.Spec.InitContainers[i]) {
+			addResourceList(podResourcesList, pod.Spec.InitContainers[i].Resources.Requests)
 		}
 	}
 
 	return resource_info.RequirementsFromResourceList(podResourcesList)
+}
+
+func isRestartableInitContainer(container *v1.Container) bool {
+	return container.RestartPolicy != nil && *container.RestartPolicy == v1.ContainerRestartPolicyAlways
+}
+
+func addResourceList(sum, added v1.ResourceList) {
+	for key, quantity := range added {
+		resourceSum := sum[key]
+		resourceSum.Add(quantity)
+		sum[key] = resourceSum
+	}
 }
 
 func getTaskStatus(pod *v1.Pod, bindRequest *bindrequest_info.BindRequestInfo) pod_status.PodStatus {
